@@ -26,6 +26,28 @@ def RoutesCorrectly : T → Prop
 /-- keys strictly increasing inside every leaf page -/
 def LeavesOrdered (t : T) : Prop := ∀ p ∈ t.leafList, (keysOf p.2).Pairwise (· < ·)
 
+/-- a list of pages is a doubly linked chain in the dump: `prev` of the first is `p`, neighbours point at each other,
+    `next` of the last is 0 -/
+def Linked (d : Dump) : Nat → List Nat → Prop
+  | _, [] => True
+  | p, l :: ls => (∃ pg, d.page l = some pg ∧ pg.prev = p ∧ pg.next = ls.headD 0) ∧ Linked d l ls
+
+/-- the pages of every level (interior levels too) are linked in key order -/
+def LevelsLinked (d : Dump) (t : T) : Prop := ∀ n, n ≤ t.height.getD 0 → Linked d 0 (t.level n)
+
+theorem chain_linked {d : Dump} : ∀ {l : List Nat} {p : Nat}, chainOk d p l = true → Linked d p l := by
+  intro l
+  induction l with
+  | nil => intro p _; trivial
+  | cons x xs ih =>
+    intro p h
+    simp only [chainOk] at h
+    split at h
+    · next pg hpg =>
+      simp only [Bool.and_eq_true, beq_iff_eq] at h
+      exact ⟨⟨pg, hpg, h.1.1, h.1.2⟩, ih h.2⟩
+    · cases h
+
 theorem routes_of_bounded {t : T} : ∀ {lo hi : Option Nat}, t.bounded lo hi = true → RoutesCorrectly t := by
   induction t with
   | leaf id cells => intro _ _ _; trivial
@@ -72,21 +94,22 @@ theorem leaf_ids_mem (t : T) : ∀ p ∈ t.leafList, p.1 ∈ t.ids := by
     (no page reached twice, no cycle), and on that graph: the in-order contents are strictly sorted; the code's forward
     iterator (left-most descent, then `next` links) returns exactly the in-order contents; the code's search (linear
     child routing, binary search in the leaf) returns, for **every** key, what the in-order contents hold; all leaves are
-    at one depth; every separator routes correctly; every leaf page is internally ordered. -/
+    at one depth; every separator routes correctly; every leaf page is internally ordered; the pages of every level are
+    doubly linked in key order. -/
 theorem checkTree_sound (d : Dump) (h : checkTree d = true) :
     ∃ t, treeOf d = some t ∧ toList d = t.toList ∧
       Sorted (toList d) ∧
       leafScan d = toList d ∧
       (∀ k, lookup d k = alookup k (toList d)) ∧
-      UniformDepth t ∧ RoutesCorrectly t ∧ LeavesOrdered t ∧ t.ids.Nodup := by
+      UniformDepth t ∧ RoutesCorrectly t ∧ LeavesOrdered t ∧ t.ids.Nodup ∧ LevelsLinked d t := by
   unfold checkTree at h
   cases ht : treeOf d with
   | none => simp [ht] at h
   | some t =>
     simp only [ht, checkT, Bool.and_eq_true, Bool.not_eq_true', decide_eq_true_eq] at h
-    obtain ⟨⟨⟨⟨⟨⟨hb, _hseps⟩, hh⟩, hdist⟩, hzero⟩, hlinks⟩, hfuel⟩ := h
+    obtain ⟨⟨⟨⟨⟨⟨⟨⟨hb, _hseps⟩, hh⟩, hdist⟩, hzero⟩, hlinks⟩, hfuel⟩, hlevels⟩, _hne⟩ := h
     have hlist : toList d = t.toList := by simp [toList, ht]
-    refine ⟨t, rfl, hlist, ?_, ?_, ?_, ?_, routes_of_bounded hb, leavesOrdered_of_bounded hb, distinct_nodup hdist⟩
+    refine ⟨t, rfl, hlist, ?_, ?_, ?_, ?_, routes_of_bounded hb, leavesOrdered_of_bounded hb, distinct_nodup hdist, ?_⟩
     · rw [Sorted, hlist]; exact bounded_sorted hb
     · -- the scan
       have hext : extract d d.fuel d.root = some t := ht
@@ -115,6 +138,83 @@ theorem checkTree_sound (d : Dump) (h : checkTree d = true) :
     · cases hhe : t.height with
       | none => simp [hhe] at hh
       | some hgt => exact ⟨0 + hgt, height_depths 0 hhe⟩
+    · intro n hn
+      simp only [levelsLinked, List.all_eq_true, List.mem_range] at hlevels
+      exact chain_linked (hlevels n (by omega))
+
+/-- **Backward iteration.** On an accepted dump the code's backward iterator (right-most descent, cells from last to
+    first, `prev` links; it panics on a leaf without cells) does not fail and returns the contents in descending order. -/
+theorem checkTree_sound_backward (d : Dump) (h : checkTree d = true) :
+    leafScanBack d = some (toList d).reverse := by
+  unfold checkTree at h
+  cases ht : treeOf d with
+  | none => simp [ht] at h
+  | some t =>
+    simp only [ht, checkT, Bool.and_eq_true, Bool.not_eq_true', decide_eq_true_eq] at h
+    obtain ⟨⟨⟨⟨⟨⟨⟨⟨_, _⟩, _⟩, _⟩, hzero⟩, hlinks⟩, hfuel⟩, _⟩, hne⟩ := h
+    have hlist : toList d = t.toList := by simp [toList, ht]
+    have hext : extract d d.fuel d.root = some t := ht
+    have hrm := extract_rightmost d d.fuel d.root t hext
+    have hmatch := extract_leaves d d.fuel d.root t hext
+    have hnz : ∀ e ∈ t.leafList, e.1 ≠ 0 := by
+      intro e he h0
+      have hmem := leaf_ids_mem t e he
+      rw [h0] at hmem
+      have : t.ids.contains 0 = true := by simpa using hmem
+      rw [this] at hzero
+      cases hzero
+    -- the general path: all leaves non-empty
+    have general : (∀ e ∈ t.leafList, e.2 ≠ []) →
+        (match rightmost d d.fuel d.root with
+          | none => none
+          | some l => scanBackFrom d d.fuel l) = some (toList d).reverse := by
+      intro hall
+      have hsb := scanBack_links d t.leafList 0 (d.fuel - t.leafList.length) hmatch hlinks hnz hall
+      rw [show t.leafList.length + (d.fuel - t.leafList.length) = d.fuel by omega] at hsb
+      rw [hrm, hlist, toList_eq_concat]
+      cases hl : t.leafList.getLast? with
+      | none => exact absurd (List.getLast?_eq_none_iff.mp hl) (leafList_ne_nil t)
+      | some x =>
+        rw [hl] at hsb
+        simp only [Option.map_some, Option.getD_some] at hsb
+        simp only [Option.map_some]
+        rw [hsb, scanBackFrom_zero]
+        simp
+    -- what page is the root?
+    unfold leafScanBack
+    cases hf : d.fuel with
+    | zero => rw [hf] at hext; simp [extract] at hext
+    | succ f =>
+      rw [hf] at hext
+      simp only [extract] at hext
+      split at hext
+      · cases hext
+      · next prev next cells hp =>
+        cases hext
+        rw [hp]
+        cases cells with
+        | nil => simp [hlist, T.toList, leafEntries]
+        | cons c cs =>
+          simp only
+          rw [← hf]
+          apply general
+          intro e he
+          simp only [T.leafList, List.mem_singleton] at he
+          subst he
+          simp [leafEntries]
+      · next prev next right cells hp =>
+        rw [hp]
+        simp only
+        rw [← hf]
+        apply general
+        intro e he hempty
+        have hall : t.leafList.all (fun p => !p.2.isEmpty) = true := by
+          cases t with
+          | leaf id c => exact (buildInt_not_leaf hext).elim
+          | last id r => simpa [T.noEmptyLeaf] using hne
+          | cons id ch s rest => simpa [T.noEmptyLeaf] using hne
+        have := List.all_eq_true.mp hall e he
+        simp [hempty] at this
 
 /-- The hypothesis of `checkTree_sound` is satisfiable by a non-trivial graph: a root with two leaves. -/
 def exampleDump : Dump :=
